@@ -247,12 +247,11 @@ func (res *Response) prepareResponse(ctx context.Context, req *Request) {
 			}
 		}
 	}
-	req.lmd.PeerMapLock.RUnlock()
-
 	// only use the first backend when requesting table or columns table
 	if table.name == TableTables || table.name == TableColumns {
 		res.selectedPeers = []*Peer{req.lmd.PeerMap[req.lmd.PeerMapOrder[0]]}
 	}
+	req.lmd.PeerMapLock.RUnlock()
 
 	if !table.passthroughOnly && len(spinUpPeers) > 0 {
 		SpinUpPeers(ctx, spinUpPeers)
